@@ -110,6 +110,38 @@ Fixpoint sdata (s : list sev) : list Z :=
   | STimeout :: r => sdata r
   end.
 
+(* ---- the send side of the socket: Packetizer.write_all ------------------------------ *)
+(* socket oracle: send() accepts k bytes (partial send) | socket.timeout | EAGAIN | other error.
+   When the script is exhausted the socket accepts everything.  `written` is the ghost trace of
+   the bytes the socket actually took (out[:n] of every send); closed flag false.
+     while len(out) > 0:
+         retry_write = False
+         try: n = send(out)  except timeout/EAGAIN: retry_write = True  except: n = -1
+         if retry_write: n = 0
+         else:
+             if n == 0 and iteration_with_zero_as_return_value > 10: n = -1
+             iteration_with_zero_as_return_value += 1
+         if n < 0: raise EOFError()
+         if n == len(out): break
+         out = out[n:]                                                              *)
+Inductive wev := WSend (k : Z) | WTimeout | WEagain | WError.
+Fixpoint write_all (out : list Z) (iters : Z) (evs : list wev) (written : list Z) {struct evs}
+  : list Z * bool :=                                  (* (bytes on the wire, returned normally?) *)
+  match out with
+  | [] => (written, true)
+  | _ =>
+    match evs with
+    | [] => (written ++ out, true)
+    | WTimeout :: rest | WEagain :: rest => write_all out iters rest written
+    | WError :: rest => (written, false)
+    | WSend k :: rest =>
+        if ((k =? 0) && (10 <? iters)) || (k <? 0) then (written, false)
+        else if k =? zlen out then (written ++ out, true)
+        else let n := Z.to_nat (Z.min k (zlen out)) in
+             write_all (skipn n out) (iters + 1) rest (written ++ firstn n out)
+    end
+  end.
+
 (* ---- _inc_iv_counter ------------------------------------------------------ *)
 (* int.from_bytes(iv[4:]) + 1, to_bytes(8) raises OverflowError (LibExc 2) at 2^64 *)
 Definition inc_iv (iv : list Z) : result (list Z) :=
@@ -634,6 +666,10 @@ Definition run_recv_t (c : Z * bool * tcfg * bool * list sev) : list Z :=
       read_many_t toyP nr (Datatypes.S (length sock + length (sdata sock)))
                   (cfg_apply (init_state seq kex) cfg) sock in
   flat_map enc_list ps ++ [-4; k] ++ enc_fin fi.
+
+(* C01 send side: (packet bytes, socket events) -> bytes on the wire, 0 returned / 1 EOFError *)
+Definition run_write (c : list Z * list wev) : list Z :=
+  let '(w, ok) := write_all (fst c) 0 (snd c) [] in enc_list w ++ [if ok then 0 else 1].
 
 Definition run_cteq (c : list Z * list Z) : list Z :=
   [if constant_time_bytes_eq (fst c) (snd c) then 1 else 0].
